@@ -15,7 +15,11 @@ import client
 import model
 from client import Server, uri_for, diag_keys
 
-WORDS = ["tset", "wrold", "qzxvb", "mispeled", "gardden"]
+WORDS = ["tset", "wrold", "qzxvb", "mispeled", "gardden",
+         # every letter an even number of times / anagram of another entry / one entry is two others written together
+         "qzqz", "tuktuk", "zazaza", "tets", "tsetwrold",
+         # misspellings whose suggestions depend on their capitalisation (the clauses use both forms)
+         "definately", "accomodate", "arguement", "tommorow", "langauge", "documnet"]
 MARKERS = ["zzqa", "zzqb", "zzqc", "zzqd", "zzqe", "zzqf", "zzqg", "zzqh"]
 
 
